@@ -224,7 +224,24 @@ def run_random(ctx, spec):
         names, specs = table[kind]
         fields, _ = C.layout(names, specs)
         vals = [random_value(ctx.rng, f) for f in fields]
-        case = {'table': tname, 'record': kind, 'values': vals, 'mode': 'random'}
+        spelling = 'python'
+        if i % 4 == 3:
+            # the same numbers as numpy scalars (what comes out of an array: np.int64 / np.int32 are no Python ints,
+            # np.float32 no Python float): a record is written from them like from any other number
+            import numpy as np
+            spelling = 'numpy'
+            for k_, (f, v) in enumerate(zip(fields, vals)):
+                if v is None or f.typ in ('s', 'x'):
+                    continue
+                if f.typ == 'd':
+                    vals[k_] = (np.int64 if (i // 4 + k_) % 2 else np.int32)(v) if abs(v) < 2 ** 31 else np.int64(v)
+                elif 1e-30 < abs(v) < 1e30 and (i // 4 + k_) % 3 == 0:
+                    vals[k_] = np.float32(v)
+                else:
+                    vals[k_] = np.float64(v)
+            ctx.count('records_from_numpy_scalars')
+        case = {'table': tname, 'record': kind, 'values': [v if (v is None or isinstance(v, str)) else (int(v) if isinstance(v, (int,)) or 'int' in type(v).__name__ else float(v)) for v in vals],
+                'mode': 'random', 'number_spelling': spelling, 'number_types': [type(v).__name__ for v in vals]}
         ctx.case((tname, kind, repr(vals)), nontrivial=sum(v is not None for v in vals) >= 2)
         judge(ctx, parsers[tname], tname, kind, names, specs, vals, case, None)
 
@@ -248,6 +265,8 @@ def run_files(ctx, spec):
         else:
             file_t2data(ctx, rng, v, i)
         ctx.count('file_level_cases')
+    for i in range(15 if spec['n'] <= 100 else 45):
+        file_t2data_overwide_integer(ctx, rng, i)
     ctx.count('in_situ_records', mon.records)
 
 
@@ -441,6 +460,58 @@ def file_t2data(ctx, rng, v, i):
     ctx.see('file_outcome', 't2data-roundtrip')
 
 
+def file_t2data_overwide_integer(ctx, rng, i):
+    """An integer that does not fit its columns, in a record of a data file: the write fails loudly, or - if it does not -
+    the rest of the model is still all there when the file is read back."""
+    t2d, t2g = R.t2data, R.t2grids
+    where = ['incon-nseq', 'incon-nadd', 'block-nseq', 'generator-nseq', 'connection-nseq'][i % 5]
+    big = [123456, -12345, 1000000][(i // 5) % 3]
+    case = {'file': 't2data', 'overwide_integer': big, 'where': where}
+    dat = t2d.t2data()
+    dat.title = 'c02 over-wide integer'
+    rt = t2g.rocktype(name='rock1')
+    dat.grid.add_rocktype(rt)
+    for k in range(3):
+        dat.grid.add_block(t2g.t2block('  a %d' % (k + 1), 1.0e3 * (k + 1), rt, centre=[1., 2., -10. * k]))
+    for k in range(2):
+        dat.grid.add_connection(t2g.t2connection([dat.grid.blocklist[k], dat.grid.blocklist[k + 1]], 3, [5., 5.], 100., -1.0))
+    dat.incon = dict(('  a %d' % (k + 1), [0.1, [1.0e5 + k, 20.0 + k]]) for k in range(3))
+    for k in range(2):
+        dat.add_generator(t2d.t2generator(name='wel %d' % k, block='  a %d' % (k + 1), type='MASS', gx=1.5 + k))
+    if where == 'incon-nseq':
+        dat.incon['  a 2'] = [0.1, [1.0e5 + 1, 21.0], big, 1]
+    elif where == 'incon-nadd':
+        dat.incon['  a 2'] = [0.1, [1.0e5 + 1, 21.0], 1, big]
+    elif where == 'block-nseq':
+        dat.grid.blocklist[1].nseq, dat.grid.blocklist[1].nadd = big, 1
+    elif where == 'generator-nseq':
+        dat.generatorlist[1].nseq = big
+    else:
+        dat.grid.connectionlist[1].nseq = big
+    fn = os.path.join(ctx.tmp, 'c02_wide_%d.dat' % i)
+    ctx.evaluated()
+    ctx.count('overwide_integer_cases')
+    ctx.case(case, nontrivial=True)
+    try:
+        dat.write(fn)
+    except Exception as e:
+        ctx.see('overwide_integer_outcome', '%s: write raised %s' % (where, type(e).__name__))
+        return
+    ctx.see('overwide_integer_outcome', '%s: written' % where)
+    with ctx.guard(case, where='file-t2data-overwide-read'):
+        back = t2d.t2data(fn)
+        got = (back.grid.num_blocks, back.grid.num_connections, len(back.incon), len(back.generatorlist))
+        if got != (3, 2, 3, 2):
+            ctx.violation('file:t2data-overwide-integer:records-lost:' + where, 'an integer %d too wide for its field (%s): write() did not complain, the file holds %d blocks, %d connections, %d initial conditions, %d generators of 3, 2, 3, 2' % (
+                (big, where) + got), case)
+            return
+        vols = [b.volume for b in back.grid.blocklist]
+        incs = [back.incon[n][1][0] for n in sorted(back.incon)]
+        if vols != [1.0e3, 2.0e3, 3.0e3] or incs != [1.0e5, 1.0e5 + 1, 1.0e5 + 2] or [g.gx for g in back.generatorlist] != [1.5, 2.5]:
+            ctx.violation('file:t2data-overwide-integer:neighbours-corrupted:' + where, 'an integer %d too wide for its field (%s) was written without complaint: volumes %r, pressures %r, rates %r' % (
+                big, where, vols, incs, [g.gx for g in back.generatorlist]), case)
+
+
 def run_shard(ctx, spec):
     {'lattice': run_lattice, 'random': run_random, 'files': run_files}[spec['kind']](ctx, spec)
 
@@ -459,7 +530,10 @@ def replay(ctx, case):
     names, specs = table[case['record']]
     fields, _ = C.layout(names, specs)
     if 'values' in case:
-        vals = case['values']
+        vals = list(case['values'])
+        if case.get('number_spelling') == 'numpy':
+            import numpy as np
+            vals = [getattr(np, t)(v) if t in ('int32', 'int64', 'float32', 'float64') else v for v, t in zip(vals, case['number_types'])]
     else:
         vals = neighbours(fields, case['field'], case['mode'])
         vals[case['field']] = case['value']
